@@ -1,7 +1,7 @@
 (* C17 -- proofs about the tables and combinator closures REGENERATED from /repo on this run (Gen_FilterTables.v). *)
 From Coq Require Import List ZArith Bool String Lia.
 From RG.Base Require Import Outcome.
-From RG.Filters Require Import FilterIR FilterAlgebra.
+From RG.Filters Require Import FilterIR FilterAlgebra LoaderState.
 From RGW Require Import Gen_FilterTables.
 Import ListNotations.
 Local Open Scope string_scope.
@@ -35,6 +35,11 @@ Proof.
   apply (NoDup_count_occ' Z.eq_dec). intros z Hin.
   repeat (destruct Hin as [<-|Hin]; [vm_compute; reflexivity|]). destruct Hin.
 Qed.
+
+(* filter construction keeps no state: newFilter and the loader methods it reaches write no irLoader field and no
+   package-level variable and read only the loader's configuration (list regenerated from ir_loader.go) *)
+Lemma gen_loader_stateless : loader_stateless_okb gen_loader_state = true /\ loader_reach_okb gen_loader_reach = true.
+Proof. split; vm_compute; reflexivity. Qed.
 
 Definition compile_gen := compile gen_tables.
 Definition eval_gen := eval gen_combinators.
